@@ -21,6 +21,7 @@ package writer
 //@   ensures [L2-dropped-sound] result == InfoStateDropped ==> (dok && mtime <= dtime) || (cok && mtime < ctime)
 //@   ensures [L5-total] result == InfoStateUnknown || result == InfoStateCreated || result == InfoStateDropped
 //@   ensures [L5-unknown] !cok && !dok ==> result == InfoStateUnknown
+//@   ensures [equals-spec-function] result == specObjState(mtime, ctime, dtime, cok, dok)
 //@   modifies nothing
 //@   panics never
 
@@ -44,3 +45,75 @@ package writer
 //@   modifies nothing
 //@   panics never
 //@   rangeloop 1 invariant (forall k string :: visited(k) ==> !applies(k, dbOrDefault(db), collection)) && returnDB == dbOrDefault(db) && returnCollection == collection && local(db) == dbOrDefault(db) && local(collection) == collection && preservedCells(string)
+
+// ---- C08: readiness of database / collection / partition -----------------------------------------------
+// specObjState: the decision as a function, written from the property statement.
+//@ spec specObjState(m, c, d uint64, cok, dok bool) InfoState = ite(specApply(m, c, d, cok, dok), InfoStateCreated, ite(specSkip(m, c, d, cok, dok), InfoStateDropped, InfoStateUnknown))
+// recorded state of each level, from the create/drop tables keyed by SOURCE names
+//@ spec dbState(c *ChannelWriter, db string, ts uint64) InfoState = specObjState(ts, umGet(c.dbInfos, dbOrDefault(db) + "_c"), umGet(c.dbInfos, dbOrDefault(db) + "_d"), umHas(c.dbInfos, dbOrDefault(db) + "_c"), umHas(c.dbInfos, dbOrDefault(db) + "_d"))
+//@ spec collState(c *ChannelWriter, db, coll string, ts uint64) InfoState = specObjState(ts, umGet(c.collectionInfos, collKey(db, coll) + "_c"), umGet(c.collectionInfos, collKey(db, coll) + "_d"), umHas(c.collectionInfos, collKey(db, coll) + "_c"), umHas(c.collectionInfos, collKey(db, coll) + "_d"))
+//@ spec partState(c *ChannelWriter, db, coll, part string, ts uint64) InfoState = specObjState(ts, umGet(c.partitionInfos, partKey(db, coll, part) + "_c"), umGet(c.partitionInfos, partKey(db, coll, part) + "_d"), umHas(c.partitionInfos, partKey(db, coll, part) + "_c"), umHas(c.partitionInfos, partKey(db, coll, part) + "_d"))
+//@ spec wfWriter(c *ChannelWriter) bool = c != nil && c.dataHandler != nil && wfNames(c)
+
+//@ func (*ChannelWriter).WaitCollectionReady
+//@   props C08 C09
+//@   requires wfWriter(c)
+//@   ensures [decided-from-recorded-times] old(collState(c, databaseName, collectionName, msgTs)) != InfoStateUnknown ==> result == old(collState(c, databaseName, collectionName, msgTs)) && probeCalls == old(probeCalls) && umDom(c.collectionInfos) == old(umDom(c.collectionInfos)) && umVals(c.collectionInfos) == old(umVals(c.collectionInfos))
+//@   ensures [probe-never-skips] old(collState(c, databaseName, collectionName, msgTs)) == InfoStateUnknown ==> result == InfoStateCreated || result == InfoStateUnknown
+//@   ensures [probe-targets-mapped-names] old(collState(c, databaseName, collectionName, msgTs)) == InfoStateUnknown && agreeNames(c, dbOrDefault(databaseName), collectionName) ==> (forall k string :: umHas(c.nameMappings, k) && applies(k, dbOrDefault(databaseName), collectionName) ==> lastDescribeCollection.Database == fullDB(umGet(c.nameMappings, k)) && lastDescribeCollection.Name == outColl(k, umGet(c.nameMappings, k), dbOrDefault(databaseName), collectionName))
+//@   ensures [probe-unmapped-names] old(collState(c, databaseName, collectionName, msgTs)) == InfoStateUnknown && (forall k string :: umHas(c.nameMappings, k) ==> !applies(k, dbOrDefault(databaseName), collectionName)) ==> lastDescribeCollection.Database == dbOrDefault(databaseName) && lastDescribeCollection.Name == collectionName
+//@   ensures [probe-success-recorded-under-source-key] old(collState(c, databaseName, collectionName, msgTs)) == InfoStateUnknown && result == InfoStateCreated ==> umHas(c.collectionInfos, collKey(databaseName, collectionName) + "_c") && umGet(c.collectionInfos, collKey(databaseName, collectionName) + "_c") == wrapU64(ite(old(umHas(c.collectionInfos, collKey(databaseName, collectionName) + "_d")), old(umGet(c.collectionInfos, collKey(databaseName, collectionName) + "_d")), 0) + 1)
+//@   ensures [other-keys-untouched] forall k string :: k != collKey(databaseName, collectionName) + "_c" ==> umHas(c.collectionInfos, k) == old(umHas(c.collectionInfos, k)) && umGet(c.collectionInfos, k) == old(umGet(c.collectionInfos, k))
+//@   ensures [probe-failure-records-nothing] result == InfoStateUnknown ==> umDom(c.collectionInfos) == old(umDom(c.collectionInfos)) && umVals(c.collectionInfos) == old(umVals(c.collectionInfos))
+//@   ensures opCalls == old(opCalls)
+//@   modifies um(c.collectionInfos), probeCalls, lastDescribeCollection, api.DescribeCollectionParam.*
+//@   panics never
+
+//@ func (*ChannelWriter).WaitPartitionReady
+//@   props C08 C09
+//@   requires wfWriter(c)
+//@   ensures [decided-from-recorded-times] old(partState(c, databaseName, collectionName, partitionName, msgTs)) != InfoStateUnknown ==> result == old(partState(c, databaseName, collectionName, partitionName, msgTs)) && probeCalls == old(probeCalls) && umDom(c.partitionInfos) == old(umDom(c.partitionInfos)) && umVals(c.partitionInfos) == old(umVals(c.partitionInfos))
+//@   ensures [probe-never-skips] old(partState(c, databaseName, collectionName, partitionName, msgTs)) == InfoStateUnknown ==> result == InfoStateCreated || result == InfoStateUnknown
+//@   ensures [probe-targets-mapped-names] old(partState(c, databaseName, collectionName, partitionName, msgTs)) == InfoStateUnknown && agreeNames(c, dbOrDefault(databaseName), collectionName) ==> (forall k string :: umHas(c.nameMappings, k) && applies(k, dbOrDefault(databaseName), collectionName) ==> lastDescribePartition.Database == fullDB(umGet(c.nameMappings, k)) && lastDescribePartition.CollectionName == outColl(k, umGet(c.nameMappings, k), dbOrDefault(databaseName), collectionName) && lastDescribePartition.PartitionName == partitionName)
+//@   ensures [probe-unmapped-names] old(partState(c, databaseName, collectionName, partitionName, msgTs)) == InfoStateUnknown && (forall k string :: umHas(c.nameMappings, k) ==> !applies(k, dbOrDefault(databaseName), collectionName)) ==> lastDescribePartition.Database == dbOrDefault(databaseName) && lastDescribePartition.CollectionName == collectionName && lastDescribePartition.PartitionName == partitionName
+//@   ensures [probe-success-recorded-under-source-key] old(partState(c, databaseName, collectionName, partitionName, msgTs)) == InfoStateUnknown && result == InfoStateCreated ==> umHas(c.partitionInfos, partKey(databaseName, collectionName, partitionName) + "_c") && umGet(c.partitionInfos, partKey(databaseName, collectionName, partitionName) + "_c") == wrapU64(ite(old(umHas(c.partitionInfos, partKey(databaseName, collectionName, partitionName) + "_d")), old(umGet(c.partitionInfos, partKey(databaseName, collectionName, partitionName) + "_d")), 0) + 1)
+//@   ensures [other-keys-untouched] forall k string :: k != partKey(databaseName, collectionName, partitionName) + "_c" ==> umHas(c.partitionInfos, k) == old(umHas(c.partitionInfos, k)) && umGet(c.partitionInfos, k) == old(umGet(c.partitionInfos, k))
+//@   ensures [probe-failure-records-nothing] result == InfoStateUnknown ==> umDom(c.partitionInfos) == old(umDom(c.partitionInfos)) && umVals(c.partitionInfos) == old(umVals(c.partitionInfos))
+//@   ensures opCalls == old(opCalls)
+//@   modifies um(c.partitionInfos), probeCalls, lastDescribePartition, api.DescribePartitionParam.*
+//@   panics never
+
+//@ func (*ChannelWriter).WaitDatabaseReady
+//@   props C08 C09
+//@   requires wfWriter(c)
+//@   ensures [default-database-always-exists] (databaseName == "" || databaseName == "default") ==> result == InfoStateCreated && probeCalls == old(probeCalls) && umDom(c.dbInfos) == old(umDom(c.dbInfos)) && umVals(c.dbInfos) == old(umVals(c.dbInfos))
+//@   ensures [decided-from-recorded-times] databaseName != "" && databaseName != "default" && old(dbState(c, databaseName, msgTs)) != InfoStateUnknown ==> result == old(dbState(c, databaseName, msgTs)) && probeCalls == old(probeCalls) && umDom(c.dbInfos) == old(umDom(c.dbInfos)) && umVals(c.dbInfos) == old(umVals(c.dbInfos))
+//@   ensures [probe-never-skips] databaseName != "" && databaseName != "default" && old(dbState(c, databaseName, msgTs)) == InfoStateUnknown ==> result == InfoStateCreated || result == InfoStateUnknown
+//@   ensures [probe-targets-mapped-names] databaseName != "" && databaseName != "default" && old(dbState(c, databaseName, msgTs)) == InfoStateUnknown && agreeNames(c, databaseName, collectionName) ==> (forall k string :: umHas(c.nameMappings, k) && applies(k, databaseName, collectionName) ==> lastDescribeDatabase.Name == fullDB(umGet(c.nameMappings, k)))
+//@   ensures [probe-unmapped-names] databaseName != "" && databaseName != "default" && old(dbState(c, databaseName, msgTs)) == InfoStateUnknown && (forall k string :: umHas(c.nameMappings, k) ==> !applies(k, databaseName, collectionName)) ==> lastDescribeDatabase.Name == databaseName
+//@   ensures [other-keys-untouched] forall k string :: k != dbOrDefault(databaseName) + "_c" ==> umHas(c.dbInfos, k) == old(umHas(c.dbInfos, k)) && umGet(c.dbInfos, k) == old(umGet(c.dbInfos, k))
+//@   ensures [probe-failure-records-nothing] result == InfoStateUnknown ==> umDom(c.dbInfos) == old(umDom(c.dbInfos)) && umVals(c.dbInfos) == old(umVals(c.dbInfos))
+//@   ensures opCalls == old(opCalls)
+//@   modifies um(c.dbInfos), probeCalls, lastDescribeDatabase, api.DescribeDatabaseParam.*
+//@   panics never
+
+// the readiness cascade database -> collection -> partition
+//@ spec dbOK(c *ChannelWriter, db string, ts uint64) bool = db == "" || db == "default" || dbState(c, db, ts) == InfoStateCreated
+//@ spec dbDropped(c *ChannelWriter, db string, ts uint64) bool = db != "" && db != "default" && dbState(c, db, ts) == InfoStateDropped
+//@ spec tablesSame(c *ChannelWriter) bool = umDom(c.dbInfos) == old(umDom(c.dbInfos)) && umVals(c.dbInfos) == old(umVals(c.dbInfos)) && umDom(c.collectionInfos) == old(umDom(c.collectionInfos)) && umVals(c.collectionInfos) == old(umVals(c.collectionInfos)) && umDom(c.partitionInfos) == old(umDom(c.partitionInfos)) && umVals(c.partitionInfos) == old(umVals(c.partitionInfos))
+
+//@ func (*ChannelWriter).WaitObjReady
+//@   props C08
+//@   requires wfWriter(c)
+//@   ensures [non-milvus-never-waits] c.downstream != "milvus" ==> !result0 && err == nil && probeCalls == old(probeCalls) && tablesSame(c)
+//@   ensures [skip-is-success] result0 ==> err == nil
+//@   ensures [skip-only-on-recorded-drop] result0 ==> c.downstream == "milvus" && (old(dbDropped(c, db, ts)) || (collection != "" && old(collState(c, db, collection, ts)) == InfoStateDropped) || (collection != "" && partition != "" && old(partState(c, db, collection, partition, ts)) == InfoStateDropped))
+//@   ensures [dropped-database-skips] c.downstream == "milvus" && old(dbDropped(c, db, ts)) ==> result0 && err == nil && probeCalls == old(probeCalls) && tablesSame(c)
+//@   ensures [dropped-collection-skips] c.downstream == "milvus" && old(dbOK(c, db, ts)) && collection != "" && old(collState(c, db, collection, ts)) == InfoStateDropped ==> result0 && err == nil && probeCalls == old(probeCalls) && tablesSame(c)
+//@   ensures [dropped-partition-skips] c.downstream == "milvus" && old(dbOK(c, db, ts)) && collection != "" && old(collState(c, db, collection, ts)) == InfoStateCreated && partition != "" && old(partState(c, db, collection, partition, ts)) == InfoStateDropped ==> result0 && err == nil && probeCalls == old(probeCalls) && tablesSame(c)
+//@   ensures [all-recorded-created-applies] c.downstream == "milvus" && old(dbOK(c, db, ts)) && (collection == "" || old(collState(c, db, collection, ts)) == InfoStateCreated) && (collection == "" || partition == "" || old(partState(c, db, collection, partition, ts)) == InfoStateCreated) ==> !result0 && err == nil && probeCalls == old(probeCalls) && tablesSame(c)
+//@   ensures [apply-never-on-recorded-drop] !result0 && err == nil && c.downstream == "milvus" ==> !old(dbDropped(c, db, ts)) && (collection == "" || old(collState(c, db, collection, ts)) != InfoStateDropped)
+//@   ensures [drop-keys-never-change] forall k string :: !hasSuffix(k, "_c") ==> umHas(c.dbInfos, k) == old(umHas(c.dbInfos, k)) && umGet(c.dbInfos, k) == old(umGet(c.dbInfos, k)) && umHas(c.collectionInfos, k) == old(umHas(c.collectionInfos, k)) && umGet(c.collectionInfos, k) == old(umGet(c.collectionInfos, k)) && umHas(c.partitionInfos, k) == old(umHas(c.partitionInfos, k)) && umGet(c.partitionInfos, k) == old(umGet(c.partitionInfos, k))
+//@   ensures opCalls == old(opCalls)
+//@   modifies um(c.dbInfos), um(c.collectionInfos), um(c.partitionInfos), probeCalls, lastDescribeDatabase, lastDescribeCollection, lastDescribePartition, api.DescribeDatabaseParam.*, api.DescribeCollectionParam.*, api.DescribePartitionParam.*
+//@   panics never
